@@ -204,7 +204,7 @@ def check_unlock(rep, prog):
 
     def risky(st):
         return any(id(n) in risky_calls for n in ast.walk(st)) or any(isinstance(n, (ast.Yield, ast.YieldFrom)) for n in ast.walk(st))
-    g = CFG(fi.node, raising=risky)
+    g = CFG(fi.node, raising=risky, any_class=risky)     # a with-body can end in any BaseException (thrown in at the yield)
     if not clr_calls:
         rep.violation('C06.1', 'PGPKey.unlock', 'no cleanup', 'nothing clears the secret material after the unlock scope', where=fi.where)
         return
@@ -562,7 +562,8 @@ def check_decrypt_order(rep, prog):
         if f is None or c.name.startswith('Opaque'):
             continue
         rep.saw(fn=f)
-        pf = set(ast.literal_eval(c.find_attr('__privfields__')))
+        pf_order = list(ast.literal_eval(c.find_attr('__privfields__')))
+        pf = set(pf_order)
         outs = Interp(prog, Scenario(inline=noinline)).run(f)
         me_, pw = f.params[0], (f.params[1] if len(f.params) > 1 else None)
         pre = me_ + '.'
@@ -590,6 +591,68 @@ def check_decrypt_order(rep, prog):
                     rep.check(base_call is not None and re.search(r'(?<![\w])(?:super\(%s\)|%s)\.decrypt_keyblob\(' % (base.name, base.name), e[2]) is not None, 'C06.4',
                               '%s.decrypt_keyblob' % c.name, '%s = %s' % (e[1].replace(pre, 'self.'), e[2][:80]),
                               'secret fields must be read from the checked plaintext', where='%s:%d' % (f.module.relpath, e[3]))
+            # reader sequence over the decrypted buffer (the codec-pair view of C08): encrypt_keyblob writes the private MPIs in
+            # __privfields__ order, so the reader must take one MPI per field, in that order, store each as read, and fill
+            # no secret field any other way (nothing recomputed, skipped, read twice or reordered)
+            seq, why = decrypted_reader_sequence(s, base, me_, pf)
+            key = ('seq', tuple(seq), why)
+            if key not in seen:
+                seen.add(key)
+                exp = ['%s = MPI(<decrypted>)' % x for x in pf_order]
+                rep.check(why is None and seq == exp, 'C06.4', '%s.decrypt_keyblob' % c.name,
+                          'fields from the decrypted octets: %s' % (why or [x.split(' ')[0] for x in seq]),
+                          'every secret field must be filled from the decrypted octets, one MPI per field in __privfields__ order (what '
+                          'encrypt_keyblob wrote), and stored as read: %s' % (why or 'found %s' % seq), where=f.where, expected=exp, found=why or seq)
+
+
+class _Events(object):
+    def __init__(self, events):
+        self.events = events
+
+
+def decrypted_reader_sequence(s, base, me, pf):
+    """(['<field> = MPI(<decrypted>)' | other descriptions, in order], problem or None) for one path of a subclass decrypt_keyblob:
+    sa/codec.reader_sequence applied to the buffer the checked base decryption returned."""
+    bufre = r'(?:super\(%s\)|%s)\.decrypt_keyblob\([^()]*\)' % (re.escape(base.name), re.escape(base.name))
+    vals = {(p_, l_): (v_.text if isinstance(v_, Obj) else t_) for p_, t_, l_, v_ in s.stores}
+    buf = None
+    for e in s.events:
+        if e[0] in ('assign', 'store'):
+            m = re.search(bufre, vals.get((e[1], e[3]), e[2]) if e[0] == 'store' else e[2])
+            if m:
+                buf = m.group(0)
+                break
+    if buf is None:
+        return [], 'the decrypted buffer of the base class is not used'
+    # the buffer is known by its value text, not by a local name: hand the events over without the right-hand-side name sets
+    evs = [e[:4] if e[0] in ('store', 'assign') else e for e in s.events if not (e[0] == 'call' and e[1] in ('setattr', 'super'))]   # (their stores follow)
+    reads, problems = codec.reader_sequence(_Events(evs), buf, recv=me)
+    pre = me + '.'
+    seq, last = [], -1
+    for i, r in enumerate(reads):
+        if r.target and r.target.startswith(pre) and r.target[len(pre):] in pf:
+            last = i
+    for r in reads[:last + 1]:
+        tgt = r.target[len(pre):] if (r.target or '').startswith(pre) else (r.target or '<discarded>')
+        if r.kind == 'delegate' and r.via == 'MPI' and r.text == 'MPI(%s)' % buf:
+            seq.append('%s = MPI(<decrypted>)' % tgt)
+        else:
+            seq.append('%s = %s [%s]' % (tgt, r.text.replace(buf, '<decrypted>')[:80], r.kind))
+    n_stores = [e[1][len(pre):] for e in s.events if e[0] == 'store' and e[1].startswith(pre) and e[1][len(pre):] in pf]
+    why = None
+    bad = [p for p in problems if p[0] != 'unmodelled-del']
+    if bad:
+        why = bad[0][1].replace(buf, '<decrypted>')
+    else:
+        for e in s.events:
+            if e[0] == 'store' and e[1].startswith(pre) and e[1][len(pre):] in pf:
+                v = vals.get((e[1], e[3]), e[2])
+                if v != 'MPI(%s)' % buf:
+                    why = '%s is assigned %s, not the MPI read from the decrypted octets' % (e[1][len(pre):], v.replace(buf, '<decrypted>')[:120])
+                    break
+        if why is None and len(n_stores) != len(set(n_stores)):
+            why = 'secret fields are assigned more than once: %s' % n_stores
+    return seq, why
 
 
 # ------------------------------------------------------------------------------------------------ C06.5
